@@ -99,8 +99,8 @@ def step (d : D) (w : List String) : D × String :=
     | _, _ => (d, "bad-op")
   | ["end"] =>
     let c : Ctx := { p := d.p, miner := d.miner, height := d.height, dedup := d.dedup }
-    let s0 : St := { accts := d.accts, gp := d.gp }
-    let (s, sel, inv, g) := mineBlock c s0 d.txs.reverse d.univ
+    let s0 : St := { accts := d.accts }
+    let (s, sel, inv, g) := mineBlock c s0 d.gp d.txs.reverse d.univ
     -- a negative final vote count cannot be RLP-encoded: the real assembler panics when it seals the block
     if d.univ.any (fun a => decide ((s.accts a).votes < 0)) then (d, "panic") else
     let selS := joinC (sel.map fun (i, g) => s!"{i}:{g}")
